@@ -57,12 +57,18 @@ class FnSpec:
         self.hints.append((anchor, text))
         return self
 
-    def closure(self, n, requires=None, ensures=None, ret=None):
-        self.closures[n] = dict(requires=clauses(requires), ensures=clauses(ensures), ret=ret)
+    def closure(self, n, requires=None, ensures=None, ret=None, tuple_param=None, params=None):
+        self.closures[n] = dict(requires=clauses(requires), ensures=clauses(ensures), ret=ret, tuple_param=tuple_param, params=params)
         return self
 
     def opt(self, **kw):
         self.opts.update(kw)
+        return self
+
+    def mapfold(self, prefix="mf", nth=0):
+        """R5: desugar the nth `.map(G).fold(INIT, H)` statement of this fn into an explicit loop"""
+        self.unit.prepasses.setdefault(self.file, []).append(
+            dict(kind="mapfold", fn=self.name, impl=self.impl, fnnth=self.nth, prefix=prefix, nth=nth))
         return self
 
     def anf(self, head, prefix, bind_root=False, nth=0, bind_operands=False):
@@ -154,10 +160,13 @@ class Unit:
             s = Src(REPO, rel)
             # R19 let-introduction pre-passes (vx/anf.py): applied to the text, one statement at a time
             for pp in self.prepasses.get(rel, []):
-                from .anf import anf_text
+                from .anf import anf_text, mapfold_text
                 it = s.find("fn", pp["fn"], impl=pp["impl"], nth=pp["fnnth"])
                 span = (s.toks[it.start].start, s.toks[it.end - 1].end)
-                new_text, log = anf_text(s.text, rel, span, pp["head"], pp["prefix"], pp["bind_root"], pp["nth"], pp["bind_operands"])
+                if pp.get("kind") == "mapfold":
+                    new_text, log = mapfold_text(s.text, rel, span, pp["nth"], pp["prefix"])
+                else:
+                    new_text, log = anf_text(s.text, rel, span, pp["head"], pp["prefix"], pp["bind_root"], pp["nth"], pp["bind_operands"])
                 if log:
                     log["at"] = f"{rel}:{s.toks[it.start].line}"
                     log["fn"] = pp["fn"]
@@ -445,14 +454,34 @@ class Unit:
                 raise Undecided(f"anchor lost: {f.key} has {len(cls)} closures, contract names closure {n}")
             c = cls[n - 1]
             txt = ""
+            tp = spec.get("tuple_param")
+            if tp:
+                # R7-closure-tuple-param: `|(a, b)|` over `&(T, U)` items -> `|vx_pN: &(T, U)| { let a = &vx_pN.0; let b = &vx_pN.1; ..`
+                # (`|&(a, b)|` binds copies: `let a = vx_pN.0;`)
+                b1, b2 = c["bar1"], c["bar2"]
+                by_ref = toks[b1 + 1].text != "&"
+                po = b1 + 1 if by_ref else b1 + 2
+                if toks[po].text != "(" or src.pairs[po] != b2 - 1:
+                    raise Undecided(f"{f.file}:{toks[b1].line}: closure {n} of {f.key} has no tuple parameter")
+                names = [src.text[toks[x].start:toks[y - 1].end] for x, y in split_top(src, po + 1, b2 - 1)]
+                rw.replace(b1 + 1, b2, f"vx_p{n}: {tp}", "R7-closure-tuple-param")
+                binds = " ".join(f"let {nm} = {'&' if by_ref else ''}vx_p{n}.{ix};" for ix, nm in enumerate(names))
+                if toks[c["body_lo"]].text == "{":
+                    rw.insert_after(c["body_lo"], " " + binds + " ", "R7-closure-tuple-param")
+                else:
+                    spec["_binds"] = binds
+            if spec.get("params"):
+                rw.replace(c["bar1"] + 1, c["bar2"], spec["params"], "R7-closure-param-types")
             if spec["ret"]:
                 txt += f" -> ({spec['ret']})"
+                if c.get("ret"):
+                    rw.replace(c["ret"][0], c["ret"][1], "", "R4-named-return", swallow=True)
             if spec["requires"]:
                 txt += " requires " + ", ".join(spec["requires"]) + ","
             if spec["ensures"]:
                 txt += " ensures " + ", ".join(spec["ensures"]) + ","
             needs_block = toks[c["body_lo"]].text != "{"
-            rw.insert_after(c["bar2"], txt + (" {" if needs_block else ""), "closure-contract", ("clause", f.key, f"closure#{n}", 1))
+            rw.insert_after(c["bar2"], txt + (" { " + spec.get("_binds", "") if needs_block else ""), "closure-contract", ("clause", f.key, f"closure#{n}", 1))
             if needs_block:
                 rw.insert_after(c["body_hi"] - 1, " }", "closure-contract")
         # type substitution, floats
